@@ -315,4 +315,42 @@ theorem src_tie_opl_parse_id (s t : List UInt8) (i fuel : Nat) (hi : i ≤ s.len
   · unfold opl_parse_id_defined
     simp only [h2, Bool.and_true, Bool.true_and]
 
+/-! ### conditions of `opl_parse_tags` / `opl_parse_timestamp` (functions that are outside the subset as a whole) -/
+
+/-- the test that ends the loop of `opl_parse_tags` (`*s == ' ' || *s == '\t' || *s == '\0'`) = the model's test in `pTags` -/
+theorem src_tie_opl_parse_tags_cond_end (s t : List UInt8) (i : Nat) (hi : i ≤ s.length) :
+    opl_parse_tags_cond_end (s ++ 0 :: t) (i : Int) = (OplFmt.isSpTab (peek (s.drop i)) || peek (s.drop i) == 0) ∧
+    opl_parse_tags_cond_end_defined (s ++ 0 :: t) (i : Int) = true := by
+  have hrd := rdS_cbuf s t i hi
+  have hin := inB_cbuf s t i hi
+  have hsc := sc_cases (peek (s.drop i))
+  have hm := isSpTab_iff (peek (s.drop i))
+  constructor
+  · unfold opl_parse_tags_cond_end
+    simp only [hrd]
+    rw [Bool.eq_iff_iff]
+    simp only [Bool.or_eq_true, eq_iff, hm, beq_char, decide_eq_true_eq, zero_toNat]
+    omega
+  · unfold opl_parse_tags_cond_end_defined
+    simp only [hrd, hin, Bool.or_true, Bool.and_true, Bool.true_and]
+
+/-- the "no timestamp" test of `opl_parse_timestamp` (`**s == '\0' || **s == ' ' || **s == '\t'`) = the model's test in
+    `oplParseTimestamp` -/
+theorem src_tie_opl_parse_timestamp_cond_empty (s t : List UInt8) (i : Nat) (hi : i ≤ s.length) :
+    opl_parse_timestamp_cond_empty (s ++ 0 :: t) (i : Int) = (peek (s.drop i) == 0 || peek (s.drop i) == 32 || peek (s.drop i) == 9) ∧
+    opl_parse_timestamp_cond_empty_defined (s ++ 0 :: t) (i : Int) = true := by
+  have hrd := rdS_cbuf s t i hi
+  have hin := inB_cbuf s t i hi
+  have hsc := sc_cases (peek (s.drop i))
+  have e32 : (32 : UInt8).toNat = 32 := rfl
+  have e9 : (9 : UInt8).toNat = 9 := rfl
+  constructor
+  · unfold opl_parse_timestamp_cond_empty
+    simp only [hrd]
+    rw [Bool.eq_iff_iff]
+    simp only [Bool.or_eq_true, eq_iff, beq_char, decide_eq_true_eq, zero_toNat, e32, e9]
+    omega
+  · unfold opl_parse_timestamp_cond_empty_defined
+    simp only [hrd, hin, Bool.or_true, Bool.and_true, Bool.true_and]
+
 end Osmium.SrcTie.OplSmall
